@@ -156,9 +156,9 @@ func runC07(c *Ctx) {
 			sigT := b.Of(e.Results[0], e.Instr)
 			if errT.Is("nil") {
 				_, ok := ana.Match("call<repo/pkg/ed25519.Sign>(p0, p2)", sigT)
-				r.Check(ok && mustPass(fn, e.Instr.Block(), plainEdges(acc)), "C07.signer.delegates", pos(e.Instr), "nil-error return gives Sign(priv, message) under HashFunc()==0: %s", short(sigT.String(), 200))
+				r.Check(ok && exitMustPass(fn, e, plainEdges(acc)), "C07.signer.delegates", pos(e.Instr), "nil-error return gives Sign(priv, message) under HashFunc()==0: %s", short(sigT.String(), 200))
 			} else {
-				r.Check(sigT.Is("nil") && mustPass(fn, e.Instr.Block(), plainEdges(rej)), "C07.signer.refuses-prehashed", pos(e.Instr), "error return carries no signature and is reached only under HashFunc()!=0")
+				r.Check(sigT.Is("nil") && exitMustPass(fn, e, plainEdges(rej)), "C07.signer.refuses-prehashed", pos(e.Instr), "error return carries no signature and is reached only under HashFunc()!=0")
 			}
 		}
 		r.Check(len(*fn.Params[1].Referrers()) == 0, "C07.signer.reader-unused", c.P.Pos(fn.Pos()), "the io.Reader parameter has no use")
@@ -183,7 +183,7 @@ func runC07(c *Ctx) {
 				r.Check(ok1, "C07.generate.private", pos(e.Instr), "private = NewKeyFromSeed(32 bytes filled by io.ReadFull): %s", short(priv.String(), 300))
 				r.Check(ok2, "C07.generate.public", pos(e.Instr), "public = copy of private[32:]: %s", short(pub.String(), 300))
 				es := edgesMatching(b, "bin<==>(ext#1("+readFull+"), nil)")
-				r.Check(mustPass(fn, e.Instr.Block(), plainEdges(es)), "C07.generate.error-gate", pos(e.Instr), "success return only under err==nil of io.ReadFull")
+				r.Check(exitMustPass(fn, e, plainEdges(es)), "C07.generate.error-gate", pos(e.Instr), "success return only under err==nil of io.ReadFull")
 			} else {
 				_, ok := ana.Match("ext#1("+readFull+")", errT)
 				r.Check(ok, "C07.generate.error-propagated", pos(e.Instr), "error return propagates io.ReadFull's error: %s", short(errT.String(), 200))
